@@ -15,7 +15,7 @@ generate_base = c16.generate
 
 
 def generate(R, tier):
-    limit = 300 if tier == "quick" else 8000
+    limit = 500 if tier == "quick" else 8000
     for k, c in enumerate(c16.generate(R, tier)):
         if k >= limit:
             break
